@@ -52,7 +52,8 @@ func init() {
 	})
 }
 
-var warnRe = regexp.MustCompile(`warning: has the conflic (\d+), sym (\d+), conflict Type (\w+), (\w+)`)
+// lenient about wording (the message has a typo a maintainer may fix): "warning", "conflic…", state number, "sym" number
+var warnRe = regexp.MustCompile(`(?i)warning:?[^\n]*?conflic\w*\s+(\d+),\s*sym\w*\s+(\d+)`)
 
 // mapStates maps yaccgo state numbers to reference state numbers by item set.
 func mapStates(vw *ygo.View, a *ref.Automaton) ([]int, bool) {
